@@ -314,6 +314,16 @@ def apply_worker(part, cells, codes):
                     part.fail("apply4:%d" % code, "apply on homogeneous (N,4) of %s disagrees with (N,3)" % symm.canonical_string(op), case)
                 if not (np.abs(a5 - a3).max() <= 0):
                     part.fail("call:%d" % code, "__call__ differs from apply", case)
+                # degenerate point sets: one point, the origin alone (its image is the translation), two origins, one generic point
+                for dname, P in (("one origin", np.zeros((1, 3))), ("two origins", np.zeros((2, 3))), ("one point", frac[3:4].copy()), ("origin as homogeneous point", np.array([[0.0, 0.0, 0.0, 1.0]]))):
+                    part.tr()
+                    try:
+                        gotP = np.asarray(s.apply(P), dtype=float)
+                        wantP = P[:, :3] @ np.array(op[0], dtype=float).reshape(3, 3).T + np.array(op[1], dtype=float) / 12.0
+                        if gotP.shape[0] != len(P) or not (np.abs(gotP[:, :3] - wantP).max() <= 1e-12):
+                            part.fail("apply-degenerate:%s" % dname, "apply of %s on %s gives %s, expected %s" % (symm.canonical_string(op), dname, gotP.tolist(), wantP.tolist()), case)
+                    except Exception as e:
+                        part.fail("apply-degenerate-raise:%s" % dname, "apply of %s on %s raised %r" % (symm.canonical_string(op), dname, e), case)
                 got = cart @ Rc + tc
                 dc = np.abs(got - want @ M).max() / scale
                 part.dev("cartesian_rel", dc)
